@@ -280,7 +280,7 @@ def struct_fields(item: Item):
         seg_m = body_m[a:b]
         # strip attributes
         seg = re.sub(r"#\[[^\]]*\]", " ", seg_m)
-        m = re.search(r"(?:pub(?:\s*\([^)]*\))?\s+)?([A-Za-z_][A-Za-z0-9_]*)\s*:\s*(.+)$", seg.strip(), re.S)
+        m = re.search(r"(?:pub(?:\s*\([^)]*\))?\s+)?((?:r#)?[A-Za-z_][A-Za-z0-9_]*)\s*:\s*(.+)$", seg.strip(), re.S)
         if m:
             fields[m.group(1)] = _norm(m.group(2))
     return fields
